@@ -3,6 +3,7 @@ C09 — Killing git-lfs at any instant never leaves a bad object in local storag
 Property theorems only (obligations of ./check C09).  A command is a list of atomic file-system
 operations; SIGKILL = any prefix of that list (completed system calls persist).
 -/
+import LfsModel.Gen
 import LfsModel.Crash
 import LfsModel.CrashRerun
 import LfsModel.CrashIno
@@ -70,5 +71,23 @@ theorem kill_anywhere_leaves_storage_intact_with_links (Hf : Crash.Bytes → Cra
     (fsEnd : CrashI.Fs) (he : CrashI.exec Hf {} ops = some fsEnd) (k : Nat) :
     ∃ fsK, CrashI.exec Hf {} (ops.take k) = some fsK ∧ CrashI.Intact Hf fsK :=
   CrashI.prefix_intact Hf ops {} fsEnd (CrashI.empty_inv Hf).1 (CrashI.empty_inv Hf).2 he k
+
+/-! tie to tools/filetools.go as it is in /repo now -/
+/-- RenameFileCopyPermissions — the step that puts a verified file under an object's name, in all three download
+    adapters — looks at the destination, copies its mode onto the source, and renames ONCE: the destination is never
+    moved aside first, so at every instant the name holds either the old complete file or the new one (the crash
+    model's `rename` step; seventh-round seed C09 replaced it by move-aside, rename, unlink) -/
+theorem gen_rename_into_place_is_one_rename :
+    Gen.renameIntoPlaceCalls =
+      [
+       -- os.Stat: destfile | 
+       [111, 115, 46, 83, 116, 97, 116, 58, 32, 100, 101, 115, 116, 102, 105, 108, 101, 32, 124, 32],
+       -- os.IsNotExist: err | 
+       [111, 115, 46, 73, 115, 78, 111, 116, 69, 120, 105, 115, 116, 58, 32, 101, 114, 114, 32, 124, 32],
+       -- os.Chmod: srcfile, info.Mode() | !(os.IsNotExist(err)) && !(err != nil)
+       [111, 115, 46, 67, 104, 109, 111, 100, 58, 32, 115, 114, 99, 102, 105, 108, 101, 44, 32, 105, 110, 102, 111, 46, 77, 111, 100, 101, 40, 41, 32, 124, 32, 33, 40, 111, 115, 46, 73, 115, 78, 111, 116, 69, 120, 105, 115, 116, 40, 101, 114, 114, 41, 41, 32, 38, 38, 32, 33, 40, 101, 114, 114, 32, 33, 61, 32, 110, 105, 108, 41],
+       -- srcfile, destfile | 
+       [115, 114, 99, 102, 105, 108, 101, 44, 32, 100, 101, 115, 116, 102, 105, 108, 101, 32, 124, 32]
+      ] := by decide
 
 end C09
